@@ -16,6 +16,16 @@ import driver
 VERIF = driver.VERIF
 
 
+def _claimed():
+    try:
+        return {c["property_id"] for c in json.load(open(os.path.join(VERIF, "MANIFEST.json")))["checks"]}
+    except Exception:
+        return set()
+
+
+CLAIMED = _claimed()
+
+
 def load_known():
     p = os.path.join(VERIF, "known_findings.json")
     if os.path.exists(p):
@@ -23,7 +33,7 @@ def load_known():
     return {"findings": []}
 
 
-def jobs_for(u, tier, known):
+def jobs_for(u, tier, known, prop=None):
     """A unit expands into jobs: the main run, and for a unit with an open known finding the pair
     (confirm: restricted to the finding's inputs, expected to fail; main: those inputs excluded)."""
     jobs = []
@@ -34,7 +44,10 @@ def jobs_for(u, tier, known):
             jobs.append(("kf-confirm", ["VF_KF_ONLY"], k))
     else:
         jobs.append(("main", [], None))
-    if u.get("canary", True) and (tier == "thorough" or u.get("canary_quick", True)):
+    # quick tier: the canary (vacuity guard) of a unit runs with the check of the unit's PRIMARY property (props[0]);
+    # checks of properties the unit serves secondarily (e.g. C08 lock balance) do not repeat it
+    primary = (prop is None) or (not u["props"]) or (u["props"][0] == prop) or (u["props"][0] not in CLAIMED)
+    if u.get("canary", True) and (tier == "thorough" or (u.get("canary_quick", True) and primary)):
         jobs.append(("canary", ["VF_CANARY"], None))
     return jobs
 
@@ -62,7 +75,7 @@ def main():
         return 2
     work = []
     for u in units:
-        for (variant, defs, kf) in jobs_for(u, tier, known):
+        for (variant, defs, kf) in jobs_for(u, tier, known, a.prop):
             if a.no_canary and variant == "canary":
                 continue
             work.append((u, variant, list(defs) + list(a.define), kf))
